@@ -49,6 +49,20 @@ fn run_history(sh: &mut Shard, p: &IG, pool: &[IG], ops: &[Op], lat: &Lat, verbo
                 }
             }
             1 => with_geom!(gx, y => if op.p_first { im_string(&pr.relate(y)) } else { im_string(&y.relate(pr)) }),
+            // the prepared geometry against ITSELF: the very same object in both operand positions, or its clone (which
+            // shares the cached index)
+            2 if op.partner == SELF => {
+                if op.p_first {
+                    im_string(&pr.relate(pr))
+                } else {
+                    let c = pr.clone();
+                    if i % 2 == 0 {
+                        im_string(&pr.relate(&c))
+                    } else {
+                        im_string(&c.relate(pr))
+                    }
+                }
+            }
             2 => {
                 let px = PreparedGeometry::from(gx.clone());
                 if op.p_first {
